@@ -175,6 +175,7 @@ def prog(k1: int, k2: int, in_batch: bool, pr_r: int, v1: int, v2: int, pos1: bo
     if k2 >= 0:
         _fault(p, arm, k2, v2, pos2)
     if in_batch:
+        check('C05.still_deferred_in_batch', len(trace) == n_before, dict(info, during_fault=True, ran=len(trace) - n_before))
         n = len(trace)
         p.b = 7
         check('C05.still_deferred_in_batch', len(trace) == n, info)
